@@ -120,6 +120,14 @@ ErrDespiteOwnAck(e) ==
      \* judged on the line that answers the call: a later put on the same target has requests (and acknowledgements) of its own
      /\ c \notin hist.answered
      /\ hist.ptids[TTargetOf[c]] \cap h.acked # {}
+\* ... and a query error is a verdict on ALL the write requests: none of them is still waiting for its answer (unanswered and not
+\* yet expired by the socket's own, adaptive, timeout) when the call is answered - an acknowledgement could still arrive
+ErrWhileRequestsLive(e) ==
+  \E c \in SeqSet(e.proj.called) :
+     /\ TOpOf[c] = "put" /\ e.proj.done[c] \notin {"pending", "ok", "dropped", "abandoned", "CasFailed", "NotMostRecent", "ConflictRisk"}
+     /\ e.outcomes[c] = 1 /\ ~e.proj.t[TTargetOf[c]].p_on
+     /\ c \notin hist.answered
+     /\ hist.ptids[TTargetOf[c]] \cap SeqSet(e.proj.live) # {}
 
 \* ---- L1 readable off one observed line ----
 L1(e) ==
@@ -140,6 +148,7 @@ L1(e) ==
         ELSE {})
   \cup (IF OkWithoutOwnAck(e) THEN {"C08_OkOnlyIfOwnAck"} ELSE {})
   \cup (IF ErrDespiteOwnAck(e) THEN {"C08_OkIfOwnAck"} ELSE {})
+  \cup (IF ErrWhileRequestsLive(e) THEN {"C08_ErrOnlyWhenNothingOutstanding"} ELSE {})
   \* C09: a transaction id belongs to one request: the id sets of the lookups and puts that are active at the same time are disjoint
   \cup (IF \E t1 \in TTargets, t2 \in TTargets :
              \/ (t1 # t2 /\ (SeqSet(e.proj.t[t1].q_tids) \cup SeqSet(e.proj.t[t1].p_tids)) \cap (SeqSet(e.proj.t[t2].q_tids) \cup SeqSet(e.proj.t[t2].p_tids)) # {})
